@@ -543,6 +543,13 @@ theorem altHosts_kube_examples :
     ∧ altHosts "reviews.other.svc.cluster.local" false 0 "default.svc.cluster.local"
       = ["reviews.other.svc.cluster.local.", "reviews.other", "reviews.other.svc"] := by decide
 
+/-- Wildcard service names (/repo a8f0821): never abbreviated to the bare `*`, which is the domain of
+    the catch-all virtual host; the namespace-qualified forms are kept. -/
+theorem altHosts_wildcard_no_star :
+    altHosts "*.default.svc.cluster.local" false 0 "default.svc.cluster.local"
+      = ["*.default.svc.cluster.local.", "*.default", "*.default.svc"]
+    ∧ altHosts "*.local.campus.net" false 0 "local.campus.net" = ["*.local.campus.net."] := by decide
+
 /-! ## Non-vacuity -/
 
 def exInputs : List VHInput :=
